@@ -6,8 +6,9 @@ Peculiarities modelled faithfully:
   `aborted` with the convergence-control state of the *previous* solve (`st0`);
 * after the first half step the defect norm is tested directly with `is_diverged` / `is_converged`
   (not through `_analyse_defect`: no `min_iter`, `max_iter`, stagnation test; not through `_calc_def_norm`);
-* if `_set_initial_defect` does not return `progress` (initial defect already below the tolerance) the function returns
-  `Status::undefined` (F-C07-1 in checks/props/c07.py FINDINGS).
+  a `success` there before `min_iter` iterations is the open finding "c07-edge:F2";
+* if `_set_initial_defect` does not return `progress` the function returns that status (since the fix of F-C07-1,
+  /repo commit c0d18e9d5; before, it fell through to `return Status::undefined`).
 -/
 namespace FeatModel.Solver
 
@@ -62,9 +63,7 @@ def bicgIntern (S : Sys V α) (c : Config α) (st0 : State α) (x r : V) : Optio
     let rho := S.ops.dot r pt
     let d0 := S.nrm r
     let (status, st) := setInitialDefect c true d0
-    -- the `while(status == progress)` loop is skipped and the function falls through to its final
-    -- `return Status::undefined` ("we should never reach this point")
-    if status ≠ .progress then some ⟨.undefined, x, st, [d0]⟩
+    if status ≠ .progress then some ⟨status, x, st, [d0]⟩
     else bicgLoop S c r (fuelOf c) x r pt pt rho st 1 [d0]
 
 def bicgApply (S : Sys V α) (c : Config α) (st0 : State α) (b : V) : Option (Result V α) :=
